@@ -34,7 +34,8 @@ Methods == {"GET", "POST", "OPTIONS", "HEAD", "DELETE"}
 \* with reverse-proxy mode ON (cfg.rp) the client address is what the configured header (X-Real-IP) says: "ip" then means a trusted
 \* address in that header (from an untrusted peer); "peer_garbage" / "peer_absent": the PEER is a trusted address but the header is
 \* unparsable / missing - the client address is unknown, which is not a bypass
-Bypass  == {"none", "route", "ip", "spoof_uri", "spoof_ip", "peer_garbage", "peer_absent"}
+\* route_get: the path lies under a skip-auth route the operator qualified with a method (GET=^/getonly): a bypass for GET requests only
+Bypass  == {"none", "route", "route_get", "ip", "spoof_uri", "spoof_ip", "peer_garbage", "peer_absent"}
 RealBypass == {"route", "ip"}
 ErrModes == {"page", "force_json", "accept_json", "api_route"}
 
@@ -52,7 +53,7 @@ CredValid(c, cfg) ==
       [] OTHER                                                       -> FALSE
 \* the identity behind the credential: the given user, or the htpasswd user (exempt from e-mail rules, group g1)
 Authorised(c, u) == IF c = "basic_valid" THEN TRUE ELSE UserAuthorised(u)
-Bypassed(r, cfg) == r.bypass \in RealBypass \/ (cfg.preflight /\ r.method = "OPTIONS")
+Bypassed(r, cfg) == r.bypass \in RealBypass \/ (r.bypass = "route_get" /\ r.method = "GET") \/ (cfg.preflight /\ r.method = "OPTIONS")
 
 Req_Served(r, cfg)   == (CredValid(r.cred, cfg) /\ Authorised(r.cred, r.user)) \/ Bypassed(r, cfg)
 \* user info is disclosed to the holder of a valid credential only (authorised, or on a bypassed request)
@@ -88,8 +89,9 @@ InScope(c) ==
     /\ (c.errmode # "page" => c.endpoint = "proxy")
     /\ (c.user # "alice" => c.cred \in {"valid", "aged_valid", "bearer_valid", "expired", "valid_plus_badbearer"})
     /\ (c.user = "erin" => c.cred = "bearer_valid")
+    /\ (c.bypass = "route_get" => c.endpoint = "proxy" /\ c.errmode = "page" /\ c.cred \in {"none", "valid", "tamper_sig"} /\ c.user = "alice" /\ ~c.cfg.rp /\ ~c.cfg.expire0)
     /\ (c.bypass \in {"spoof_uri", "spoof_ip"} => c.endpoint \in {"proxy", "authonly"} /\ c.errmode \in {"page", "force_json", "accept_json"} /\ ~c.cfg.rp)
-    /\ (c.bypass \in {"peer_garbage", "peer_absent"} <=> (c.cfg.rp /\ c.bypass \notin {"none", "route", "ip"}))
+    /\ (c.bypass \in {"peer_garbage", "peer_absent"} <=> (c.cfg.rp /\ c.bypass \notin {"none", "route", "route_get", "ip"}))
     /\ (c.cfg.expire0 => c.endpoint \in {"proxy", "authonly", "userinfo"} /\ c.errmode = "page" /\ c.method = "GET" /\ c.bypass = "none" /\ c.user = "alice"
                          /\ c.cred \in {"none", "valid", "expired", "tamper_value", "tamper_ts", "tamper_sig", "other_secret", "csrf_as_session", "garbage", "ticket_no_entry"})
     /\ (c.cfg.rp => c.endpoint \in {"proxy", "authonly"} /\ c.errmode = "page" /\ c.method = "GET" /\ c.cfg.store = "cookie"
@@ -101,7 +103,7 @@ InScope(c) ==
     /\ (c.cfg.customPrefix => c.cred \in {"none", "valid", "expired", "tamper_sig", "bearer_valid", "basic_valid"} /\ c.errmode = "page" /\ c.method = "GET"
                                /\ c.cfg.store = "cookie" /\ c.bypass \in {"none", "ip"})
     /\ (c.method \in {"POST", "HEAD", "DELETE"} => c.endpoint \in {"proxy", "authonly"})
-    /\ (c.method \in {"HEAD", "DELETE"} => c.errmode = "page" /\ c.bypass \in {"none", "route"})
+    /\ (c.method \in {"HEAD", "DELETE"} => c.errmode = "page" /\ c.bypass \in {"none", "route", "route_get"})
     \* feature switches only matter for the credentials they govern
     /\ (~c.cfg.bearer => c.cred \in BearerCreds \cup ComboCreds \cup {"none", "valid"})
     /\ (~c.cfg.htpasswd => c.cred \in BasicCreds \cup {"none", "valid"})
